@@ -6,6 +6,7 @@ pub mod subscribers {
     #[cfg(any(kani, feature = "vreplay"))]
     mod h {
         include!("/verif/kani/core/src/h/util_subs.rs");
+        include!("/verif/kani/core/src/h/c04_subs_gen.rs");
     }
 }
 
@@ -18,6 +19,7 @@ pub mod store {
         include!("/verif/kani/core/src/h/c02.rs");
         include!("/verif/kani/core/src/h/c01.rs");
         include!("/verif/kani/core/src/h/c01_gen.rs");
+        include!("/verif/kani/core/src/h/c04_gen.rs");
         #[cfg(kani)]
         include!("/verif/kani/core/src/h/probe.rs");
     }
